@@ -118,7 +118,7 @@ def def_before_use(txt, cpp):
 def symstruct(txt, cpp):
     """the model symbols each section of a generated text declares and uses (the structure of coq/Amp/Symbols.v):
     [consts (sorted), resvars (sorted), particle_masses uses, parameter declarations (in order), arrays sorted [[name, sorted elements]],
-     per amplitude per lineshape the symbols used (in order), sections-in-order flag]"""
+     per amplitude per lineshape the symbols used (in order), sections-in-order flag]; the members of an array in text order"""
     hdr, intro, pars, body = split_blocks(txt, cpp)
     consts, resvars, masses = [], [], []
     for l in intro:
@@ -169,7 +169,7 @@ def symstruct(txt, cpp):
                     if x not in ("new", "true", "false", "True", "False") and not re.fullmatch(r"M_\d+(_\d+)?", x)]
             uses.append(syms)
         amps.append(uses)
-    return [sorted(consts), sorted(resvars), masses, [d[1] for d in decls], sorted([a[1], sorted(a[2])] for a in arrs), amps, in_order]
+    return [sorted(consts), sorted(resvars), masses, [d[1] for d in decls], sorted([a[1], a[2]] for a in arrs), amps, in_order]
 
 
 def prog_name(n):
@@ -298,7 +298,7 @@ def main():
         "(values compared to 1e-7 relative)",
         "declaration before use: coq/Amp/Symbols.v (hand-written) is compared with the symbol structure py/c19.py symstruct() extracts from both "
         "texts (regular expressions over the generated code); def_before_use() additionally scans each text directly",
-        "executed, not proved: order of the members inside the spline / f_scatt / IS_poles arrays, execution of the Python output against a "
+        "executed, not proved: execution of the Python output against a "
         "recording stand-in for the goofit module, returned-string vs printed text, command-line entry point",
         "hand-written model coq/Amp/Convert.v (+ Amp/GooFit.v, Amp/Read.v) tied by correspondence; front end / particle lookup as C17"])
     d = vlib.BUILD / "c19"
@@ -380,7 +380,7 @@ Definition info (p : Z) : option pinfo := zlookup p amp_particles.
 
     def sym_canon(mv):
         consts, resvars, masses, parsd, arrs, amps = mv
-        return [sorted(consts), sorted(resvars), masses, parsd, sorted([a[0], sorted(a[1])] for a in arrs), amps]
+        return [sorted(consts), sorted(resvars), masses, parsd, sorted([a[0], a[1]] for a in arrs), amps]
 
     def qf(v):
         return None if v is None else float(Fraction(v["q"][0], v["q"][1]))
